@@ -2,7 +2,7 @@
 # Offline setup: builds the weaver and the driver, warms the go1.26.8 build cache
 # (plain and -race) by building the simulator once against the current tree.
 set -e
-cd /verif
+cd "$(dirname "$0")/.."
 export GOFLAGS=-mod=mod GOPROXY=off GOSUMDB=off GOTOOLCHAIN=local
 mkdir -p bin evidence replays
 go1.26.8 build -o bin/weave ./weave
